@@ -1,6 +1,7 @@
 """C06 — every literal form denotes its documented value; malformed forms are rejected."""
 import re
 from lib import *
+from sem import peel as sem_peel
 import sem
 
 LEVEL = "other"
@@ -283,8 +284,8 @@ def rule_radix(E, R):
     if fb:
         tk = list(calls(fb["body"], r"^lex::take$"))
         fr = list(calls(fb["body"], r"from_str_radix$"))
-        good = len(tk) == 1 and local_name(tk[0]["args"][1]) == "digits" and fr and \
-            all(local_name(c["args"][1]) == "radix" for c in fr if local_name(c["args"][0]))
+        good = len(tk) == 1 and is_param(tk[0]["args"][1], fb, 1) and fr and \
+            all(is_param(c["args"][1], fb, 2) for c in fr if local_name(c["args"][0]))
         R.check(good, rule, "rhs_types::bytes::fixed_byte", "takes exactly `digits` characters and parses with `radix`",
                 where=fb["span"])
     else:
@@ -316,7 +317,18 @@ def rule_radix(E, R):
             for a in m["arms"]:
                 if C17.chars_of_pat(a["pat"]) == set("01234567"):
                     for c in calls(a["body"], r"oct_byte$"):
-                        ok = local_name(c["args"][0]) == "input"
+                        # the argument is the rest of the text as it was *before* the first digit was consumed:
+                        # `let rest = iter.as_str();` placed before the `iter.next()` that produced the matched char
+                        an = local_name(c["args"][0])
+                        cn = local_name(m["scrut"])
+                        for blk in exprs(hq["body"], "Block"):
+                            st_ = blk.get("stmts", [])
+                            ia = [i for i, x in enumerate(st_) if x.get("k") == "SLet" and x["pat"].get("name") == an and "init" in x and
+                                  sem_peel(x["init"]).get("m") == "as_str"]
+                            ic = [i for i, x in enumerate(st_) if x.get("k") == "SLet" and x["pat"].get("name") == cn and "init" in x and
+                                  any(y["m"] == "next" for y in exprs(x["init"], "MethodCall"))]
+                            if an and cn and ia and ic and ia[0] < ic[0]:
+                                ok = True
         R.check(ok, rule, fn, "octal escape parses 3 digits starting at the first digit", where=hq["span"])
     # separators
     fs = "<rhs_types::bytes::ByteSeparator as lex::Lex>::lex"
@@ -405,7 +417,7 @@ def rule_checked_conversions(E, R):
     else:
         ok = False
         for st in exprs(h["body"], "SLet"):
-            if "hash_count" in pat_bindings(st["pat"]) and "init" in st and st["pat"].get("ty") == "u8":
+            if st["pat"].get("k") == "PBinding" and "init" in st and st["pat"].get("ty") == "u8":
                 src = _try_inner(st["init"])
                 root, ch = chain(src)
                 ms = [x["m"] for x in ch]
